@@ -108,3 +108,6 @@ package rep
 //@   ensures cl ==> isnil(result0) && result1 == protocol.ErrClosed
 //@   ensures !cl ==> isnil(result1) && cast("*context", result0).s == s && has(s.contexts, cast("*context", result0)) && !cast("*context", result0).closed
 //@   ensures !cl ==> cast("*context", result0).recvPipe == nil && isnil(cast("*context", result0).backtrace) && !cast("*context", result0).recvWait
+//@
+//@ func (*socket).AddPipe
+//@   before call:SetPrivate#1 assert cap(p.sendQ) == s.sendQLen
